@@ -211,8 +211,11 @@ def main():
             if isdeg and o.get("satisfying_requires", 0) == 0:
                 status["errors"].append(f"{o['contract']}: degraded to its bounded stand-in but no input could be run: "
                                         f"{o.get('errors')}")
-    # a degraded function with a passing stand-in is not an alarm; drop it from `undecided`
-    status["undecided"] = [u for u in status["undecided"] if "UNSUPPORTED" not in u]
+    # a degraded function with a passing stand-in is not an alarm; drop it from `undecided` -- but a degraded
+    # function for which no stand-in could run stays undecided (exit 2), it is never reported as held
+    ran_standin = {b["contract"] for b in bounded if b["role"] == "bounded stand-in" and b["inputs_run"] > 0}
+    status["undecided"] = [u for u in status["undecided"]
+                           if "UNSUPPORTED" not in u or u.split(":")[0] not in ran_standin]
     for r in degraded:
         print(f"DEGRADED {r['contract']}: {r.get('unsupported')} -> bounded stand-in")
 
